@@ -41,6 +41,10 @@ def _deep(n):
     return x
 
 
+def _one():   # module-level default factory: two fresh defaultdict mutants stay comparable (default_factory identity)
+    return 1
+
+
 def _gen():
     yield 1
     yield 2
@@ -158,7 +162,7 @@ def _replacements(rng, sub):  # noqa: C901
     elif t is dict:
         reps += [("->list", list(sub.items())), ("->keys", list(sub)), ("add-key", {**sub, "__extra__": 1}), ("int-keyed", {i: v for i, v in enumerate(sub.values())}),
                  ("drop-key", {k: v for k, v in list(sub.items())[1:]}), ("->OrderedDict", collections.OrderedDict(sub)),
-                 ("->defaultdict", lambda: collections.defaultdict(lambda: 1, sub)), ("->mappingproxy", types.MappingProxyType(dict(sub)))]
+                 ("->defaultdict", lambda: collections.defaultdict(_one, sub)), ("->mappingproxy", types.MappingProxyType(dict(sub)))]
     return reps
 
 
